@@ -173,8 +173,8 @@ func runC11(w *World, r *Report, tier string) {
 	}
 	var np *ssa.Call
 	for _, s := range sends {
-		cons := w.funcKey(s.fn) + "→marshal(SMResume)"
-		if s.fn != fn {
+		cons := w.ownerKey(s.fn) + "→marshal(SMResume)"
+		if !w.ownedOnlyBy(s.fn, "xmpp.(*Session).resume") {
 			r.Fail("R1", cons, w.ipos(s.marshal), "a <resume/> is produced outside Session.resume, where none of the guards apply")
 			continue
 		}
@@ -182,7 +182,7 @@ func runC11(w *World, r *Report, tier string) {
 		var writes []ssa.Instruction
 		mc, isCall := s.marshal.(*ssa.Call)
 		if isCall {
-			allInstrs(fn, func(in ssa.Instruction) {
+			allInstrsH(fn, func(in ssa.Instruction) {
 				c := asCall(in)
 				if c == nil {
 					return
@@ -279,7 +279,7 @@ func runC11(w *World, r *Report, tier string) {
 				bad3 = "a path after the reply does not end in a return (loop or panic) at " + w.ipos(last)
 				return
 			}
-			b, isC := boolConst(ret.Results[0])
+			b, isC := boolConst(valueOnPath(rvI(rres(path, ret)[0], len(path)-1), path))
 			if isC && !b {
 				nOther++
 				if countOn(path, isZeroStateStore) == 0 {
@@ -380,7 +380,7 @@ func runC11(w *World, r *Report, tier string) {
 					}
 				}
 				if ret, ok := path[len(path)-1].(*ssa.Return); ok {
-					if b, isC := boolConst(ret.Results[0]); !isC || b {
+					if b, isC := boolConst(rres(path, ret)[0]); !isC || b {
 						bad = "<failed/> is reported as a successful resumption"
 					}
 				}
